@@ -27,6 +27,7 @@ import re
 
 from ..refmodels import c11_shapes as S
 
+PYTHON_O_STRIDE = {"quick": 4, "thorough": 2}      # every n-th case is repeated in an interpreter started with -O
 RULE = ("histories of 1..8 operations on CNF(), OPB() and VariablesManager(BaseCNF()): new_variable, new_block "
         "(1-4 dimensions, zero ranges), new_combinations, new_combinations_with_replacement, new_permutations "
         "(k given / omitted), new_words, new_bipartite_edges (BipartiteGraph / CompleteBipartiteGraph), "
